@@ -7,6 +7,7 @@ seams.py and peer.py.  Observation wrappers (DocTest.run,
 utils.import_module_from_path) call straight through.
 """
 import asyncio
+import gc
 import hashlib
 import io
 import json
@@ -65,6 +66,7 @@ class Injector:
         self.xd_dir = xd_dir
         self.fired_at = None
         self.fired_in = None
+        self.sites = None
         self._scope_cache = {}
 
     def in_scope(self, fn):
@@ -87,8 +89,20 @@ class Injector:
             return self.local_in
         return None
 
+    def site_of(self, frame):
+        fn = frame.f_code.co_filename
+        if fn.startswith('<doctest:'):
+            return 'd'
+        if fn == peermod.__file__:
+            return 'p'
+        if self.xd_dir and fn.startswith(self.xd_dir):
+            return 't' if frame.f_code.co_name == 'write' else 'x'
+        return 'm'
+
     def tick(self, frame):
         self.n += 1
+        if self.sites is not None:
+            self.sites.append(self.site_of(frame))
         if self.target is not None and self.n == self.target and self.fired_at is None:
             self.fired_at = self.n
             fn = frame.f_code.co_filename
@@ -282,6 +296,8 @@ def _run_wrapper(orig):
         if tp is not None or ST.count_only:
             target, excname = tp if tp is not None else (None, 'KeyboardInterrupt')
             inj = Injector(target, excname, root=ST.root, xd_dir=os.path.dirname(ST.xd.__file__))
+            if ST.count_only:
+                inj.sites = []
         sp = ST.stream_plan.get((dtid, k))
         if sp and isinstance(snap0.stdout, SimStream):
             snap0.stdout.arm(sp)
@@ -319,7 +335,7 @@ def _run_wrapper(orig):
             if inj is not None:
                 rec['trace'] = {'n': inj.n, 'fired_at': inj.fired_at, 'fired_in': inj.fired_in}
                 if ST.count_only:
-                    ST.trace_counts[(dtid, k)] = inj.n
+                    ST.trace_counts[(dtid, k)] = ''.join(inj.sites)
             try:
                 rec['logged_stdout'] = [self.logged_stdout[i] for i in sorted(self.logged_stdout)]
             except Exception:
@@ -466,6 +482,11 @@ def execute(scn, root, count_only=False):
     """Run the scenario in this process. -> record dict (with live objects)."""
     xd = install_wrappers()
     from xdoctest import runner as xrunner
+    # cyclic garbage (tracebacks hold frames hold CaptureStdout objects with a
+    # __del__) must be collected at points that do not depend on how much the
+    # worker allocated before the fork: collect now, then only between operations
+    gc.collect()
+    gc.disable()
     ST.reset()
     ST.xd = xd
     PEER.reset()
@@ -485,7 +506,7 @@ def execute(scn, root, count_only=False):
     ST.pkgroot = pkgroot
     sys.dont_write_bytecode = True
     world = scn['world']
-    files, meta = worldmod.render_world(world)
+    files, meta = worldmod.render_world(world, scn.get('env', {}))
     ST.meta = meta
     write_world(files, pkgroot)
     env = scn.get('env', {})
@@ -532,6 +553,7 @@ def execute(scn, root, count_only=False):
             # but the harness needs its terminal back to keep observing.
             res['stdout_after'] = sys.stdout
             ops_out.append(res)
+            gc.collect()
             LOG.add('op_end', idx, res['how'], res['exc'], loggable_value(res['value']))
             if scn.get('heal', True):
                 heal(snap0)
